@@ -637,7 +637,132 @@ def b2(repo: Repo) -> RuleResult:
             res.unsure("B2: no production consumes NEWLINE")
     except Inconclusive as e:
         res.unsure(f"B2: newline position: {e}")
+
+    # (i) column arithmetic: the column recorded for symbol k is its offset from the last newline in
+    # front of it, 1-based on every line - also on the first one, where there is no newline to find
+    try:
+        _column_arithmetic(repo, g, res)
+    except Inconclusive as e:
+        res.unsure(f"B2: column arithmetic: {e}")
     return res
+
+
+def _column_arithmetic(repo: Repo, g: Any, res: RuleResult) -> None:
+    from .flows import compiler_flow
+    from .fold import feasible, replace_atoms
+    from .normal import C as _C
+    from .normal import V as _V
+    from .normal import show as _show
+    from .pyflow import single_atom as _sa
+
+    # which method computes the column: the callee of the token_col_start keyword
+    names = set()
+    for name, act in g.actions.items():
+        for n in ast.walk(act.node):
+            if isinstance(n, ast.keyword) and n.arg == "token_col_start":
+                for c in ast.walk(n.value):
+                    if isinstance(c, ast.Call) and isinstance(c.func, ast.Attribute) and isinstance(c.func.value, ast.Name) and c.func.value.id == "self":
+                        names.add(c.func.attr)
+    if not names:
+        res.unsure("B2: no parser action passes token_col_start=self.<method>(p, k)")
+        return
+    fl = compiler_flow(repo, "Parser", "parser.py", inline=lambda n_, f_: n_.startswith("_"), module_funcs=True)
+    for mname in sorted(names):
+        fn = fl.methods.get(mname)
+        if fn is None:
+            res.unsure(f"B2: Parser.{mname} not found")
+            continue
+        prm = [a.arg for a in fn.args.args]
+        if len(prm) < 3:
+            res.unsure(f"B2: Parser.{mname} does not take (self, p, k)")
+            continue
+        paths = [p_ for p_ in fl.run(fn, {prm[0]: _V("self"), prm[1]: _V("p"), prm[2]: _V("k")})]
+        lexpos_txt = "p.lexpos(k)"
+
+        # the search for the newline: <text>.rfind("\n", 0, lexpos) or <text>[:lexpos].rfind("\n")
+        searches: Dict[str, Tuple[Any, ...]] = {}
+        window_bad: List[str] = []
+
+        def scan(v: Any) -> None:
+            from .normal import Poly as _P
+            from .rules_d3 import _atoms_deep
+
+            for a in _atoms_deep(v):
+                if a[0] == "mcall" and a[1] in ("rfind", "find", "rindex", "index"):
+                    searches[_show(_P.atom(a))] = a
+
+        for p_ in paths:
+            if p_.ret is not None:
+                scan(p_.ret)
+            for k_, _t in p_.guards:
+                for x in k_[1:]:
+                    if hasattr(x, "terms"):
+                        scan(x)
+        rf = None
+        for txt, a in searches.items():
+            args = a[2]
+            recv = _sa(args[0]) if args else None
+            rest = list(args[1:])
+            needle = _sa(rest[0]) if rest else None
+            if needle is None or needle[0] != "str" or needle[1] != "\n":
+                continue
+            if a[1] != "rfind":
+                res.unsure(f"B2: Parser.{mname}: newline search `{txt}` is not an rfind")
+                return
+            if recv is not None and recv[0] == "slice":
+                lo, hi = recv[3][0], recv[3][1]
+                lo_ok = lo is None or (hasattr(lo, "const_value") and lo.const_value() in (0, None))
+                hi_ok = hi is not None and _show(hi) == lexpos_txt
+                if len(rest) == 1 and lo_ok and hi_ok:
+                    rf = a
+                else:
+                    window_bad.append(txt)
+            elif len(rest) == 3 and rest[1].const_value() == 0 and _show(rest[2]) == lexpos_txt:
+                rf = a
+            else:
+                window_bad.append(txt)
+        line_ = fn.lineno
+        for txt in window_bad:
+            res.inst(part="col-arith", method=mname, search=txt)
+            res.bad(Finding("B2", PARSER, line_, f"Parser.{mname}", txt, "the search for the last newline is not the window [0, lexpos(k)) in front of the token: a newline behind the token, or none at all, is found", witness="any definition that is not on the last line", tag=f"{mname}:col-window"))
+        if rf is None:
+            if not window_bad:
+                res.unsure(f"B2: Parser.{mname}: no `rfind('\\n', 0, p.lexpos(k))` recognised in {[_show(p_.ret) for p_ in paths if p_.ret is not None]}")
+            continue
+
+        def mk(nl: int, lp: int) -> Any:
+            def repl(a: Tuple[Any, ...]) -> Any:
+                if a == rf:
+                    return _C(nl)
+                if a[0] == "mcall" and a[1] == "lexpos" and len(a[2]) == 2 and _show(a[2][0]) == "p" and _show(a[2][1]) == "k":
+                    return _C(lp)
+                return None
+
+            return repl
+
+        grid = [(nl, nl + d) for nl in (-1, 0, 1, 2, 9, 40) for d in (1, 2, 5, 33)]
+        n_ok = 0
+        reported = False
+        for nl, lp in grid:
+            repl = mk(nl, lp)
+            live, unfolded = feasible([p_ for p_ in paths], repl)
+            live = [p_ for p_ in live if p_.done == "return" and p_.ret is not None]
+            if unfolded or len(live) != 1:
+                res.unsure(f"B2: Parser.{mname}: paths do not fold for (newline at {nl}, token at {lp}): {len(live)} live, unfolded {unfolded[:2]}")
+                break
+            got = replace_atoms(live[0].ret, repl).const_value()
+            if got is None:
+                res.unsure(f"B2: Parser.{mname}: `{_show(live[0].ret)}` does not fold for (newline at {nl}, token at {lp})")
+                break
+            want = lp - nl
+            if got != want:
+                if not reported:
+                    where_ = "no newline in front of it (first line of the file)" if nl < 0 else f"the last newline at offset {nl}"
+                    res.bad(Finding("B2", PARSER, getattr(live[0].ret_node, "lineno", line_), f"Parser.{mname}", _show(live[0].ret), f"a token at offset {lp} with {where_} is recorded at column {got}; the exact (1-based, as on every other line) column is {want}", witness="proto a; message A {}   -> A.token_col_start == 17, the name stands at column 18" if nl < 0 else f"a name {lp - nl} characters into its line", tag=f"{mname}:col-arith:" + ("first-line" if nl < 0 else "general")))
+                    reported = True
+                continue
+            n_ok += 1
+        res.inst(part="col-arith", method=mname, returns=[_show(p_.ret) for p_ in paths if p_.ret is not None], grid=len(grid), exact=n_ok)
 
 
 def _fstring_shape(e: ast.AST) -> str:
